@@ -175,7 +175,7 @@ PROPS = {
                        "leaves octets and open-label state unchanged, finish() yields a valid RelativeName and into_name() a valid "
                        "Name (lemmas rel_snoc_label, rel_plus_root_is_abs). ParsedName validity: see C01 (nameparse). Slicing and truncation "
                        "(unit namecheck, real text): Name::{is_label_start, check_index, slice_from, split, range_from} and "
-                       "RelativeName::{is_label_start, check_index, split, truncate, strip_suffix}: a position is accepted exactly when it "
+                       "RelativeName::{is_label_start, check_index, split, truncate, strip_suffix}, Name::{truncate, strip_suffix}: a position is accepted exactly when it "
                        "is the start of a label (or the end of a relative name), the documented panic otherwise; the parts handed out are "
                        "valid names holding exactly the octets before / behind the position; strip_suffix succeeds exactly when the base is a "
                        "label-wise suffix, cuts off exactly its octets and leaves a valid name, and leaves the name alone when it refuses. "
